@@ -327,31 +327,108 @@ def run_expr(h):
 
 
 # ---------------------------------------------------------------- power iteration oracle
+def power_operator(sp, rng, nprng, cplx):
+    """a Hermitian PSD operator given as a Linop on an operand of shape (n,), (n,1), (m,n) with m,n > 1, or 3-D,
+    its dense matrix and lambda_max"""
+    from vlib import linser
+    kind = rng.choice(["vec", "col", "mat", "mat", "mat", "cube"])
+    shape = {"vec": [rng.randint(2, 8)], "col": [rng.randint(2, 8), 1],
+             "mat": [rng.randint(2, 6), rng.randint(2, 6)],
+             "cube": [rng.randint(2, 3), rng.randint(2, 4), rng.randint(2, 4)]}[kind]
+    dt = complex if cplx else float
+
+    def rnd(sh):
+        v = nprng.standard_normal(sh)
+        return (v + 1j * nprng.standard_normal(sh)).astype(dt) if cplx else v
+    form = rng.choice(["BHB", "BHB", "multiply", "BHB+multiply"]) if len(shape) >= 2 else rng.choice(["multiply", "BHB1"])
+    if form == "multiply":
+        w = np.abs(nprng.standard_normal(shape)) * rng.choice([1.0, 5.0])
+        if rng.random() < 0.3:
+            w[tuple(rng.randrange(d) for d in shape)] = 0.0
+        A = sp.linop.Multiply(shape, w)
+    elif form == "BHB1":
+        B = sp.linop.Multiply(shape, rnd(shape))
+        A = B.H * B
+    else:
+        k = rng.randint(1, shape[-2] + 1)                      # k < m gives a rank-deficient PSD operator
+        B = sp.linop.MatMul(shape, rnd((k, shape[-2])))        # left multiplication acting on the last two axes
+        A = B.H * B
+        if form == "BHB+multiply":
+            W = sp.linop.Multiply(shape, np.abs(nprng.standard_normal(shape)))
+            A = W.H * A * W
+    D = linser.dense(A)
+    herm_err = float(np.linalg.norm(D - D.conj().T))
+    lam = float(np.linalg.eigvalsh((D + D.conj().T) / 2)[-1])
+    return A, shape, form, lam, herm_err, rnd
+
+
 def power_oracle(sp, rng, nprng, cplx):
-    n = rng.randint(2, 8)
-    M = herm_psd(nprng, n, cplx)
-    if rng.random() < 0.3:      # rank deficient PSD
-        w, q = np.linalg.eigh(M)
-        w[: rng.randint(1, n - 1)] = 0
-        M = (q * w) @ q.conj().T
-    lam = float(np.linalg.eigvalsh(M)[-1])
-    x = nprng.standard_normal((n, 1)) + (1j * nprng.standard_normal((n, 1)) if cplx else 0)
+    A, shape, form, lam, herm_err, rnd = power_operator(sp, rng, nprng, cplx)
+    x = rnd(shape)
     K = rng.randint(3, 30)
-    alg = sp.alg.PowerMethod(lambda v: M @ v, x, max_iter=K)
-    est = []
-    while not alg.done():
-        alg.update()
-        est.append(alg.max_eig)
+    use_fn = rng.random() < 0.3
+    alg = sp.alg.PowerMethod((lambda v: A(v)) if use_fn else A, x, max_iter=K)
+    est, norms = [], []
     probs = []
+    try:
+        while not alg.done():
+            alg.update()
+            est.append(float(alg.max_eig))
+            norms.append(float(np.linalg.norm(np.asarray(alg.x).ravel())))
+    except Exception as e:
+        probs.append(("power-exception", "PowerMethod raised %s on an operand of shape %s" % (type(e).__name__, shape), {}))
+    info = dict(shape=shape, form=form, cplx=cplx, estimates=est[:8], norms=norms[:4], lam=lam)
+    if probs or lam <= 0:
+        return probs, info
+    if herm_err > 1e-10 * max(lam, 1e-300):
+        probs.append(("power-generator", "generated operator is not Hermitian (check machinery)", {}))
+    for k, nv in enumerate(norms):
+        if abs(nv - 1.0) > 1e-12:
+            probs.append(("power-unit", "held vector has l2 norm %.17g after update %d (operand shape %s)" % (nv, k + 1, shape), {}))
+            break
     for k in range(2, len(est)):         # est[0] = ||A x0|| with x0 not normalised
         if est[k] < est[k - 1] * (1 - 1e-12):
-            probs.append(("power-decrease", "estimate decreased at update %d: %.17g -> %.17g" % (k + 1, est[k - 1], est[k]), {}))
+            probs.append(("power-decrease", "estimate decreased at update %d: %.17g -> %.17g (operand shape %s)"
+                          % (k + 1, est[k - 1], est[k], shape), {}))
             break
-    if any(e > lam * (1 + 1e-12) for e in est[1:]):
-        probs.append(("power-exceeds", "estimate %.17g exceeds lambda_max %.17g" % (max(est[1:]), lam), {}))
+    if any(e > lam * (1 + 1e-9) for e in est[1:]):
+        probs.append(("power-exceeds", "estimate %.17g exceeds lambda_max %.17g (operand shape %s)" % (max(est[1:]), lam, shape), {}))
     if len(est) != K:
         probs.append(("power-count", "%d updates with max_iter %d" % (len(est), K), {}))
-    return probs, dict(M_re=M.real.tolist(), M_im=(M.imag.tolist() if cplx else None), estimates=est[:8], lam=lam)
+    return probs, info
+
+
+def maxeig_oracle(sp, rng, nprng, cplx):
+    """the MaxEig App on the same family of operators: returns alg.max_eig <= lambda_max, <= max_iter updates, unit vector"""
+    A, shape, form, lam, herm_err, rnd = power_operator(sp, rng, nprng, cplx)
+    K = rng.randint(2, 12)
+    np.random.seed(rng.randrange(2 ** 31))
+    app = sp.app.MaxEig(A, dtype=(np.complex128 if cplx else np.float64), max_iter=K, show_pbar=False)
+    probs = []
+    count = [0]
+    orig = app.alg.update
+
+    def counted():
+        orig()
+        count[0] += 1
+    app.alg.update = counted
+    try:
+        out = app.run()
+    except Exception as e:
+        return [("maxeig-exception", "MaxEig raised %s on an operand of shape %s" % (type(e).__name__, shape), {})], dict(shape=shape)
+    nv = float(np.linalg.norm(np.asarray(app.alg.x).ravel()))
+    info = dict(shape=shape, form=form, cplx=cplx, out=float(out), lam=lam, norm=nv, updates=count[0])
+    if lam <= 0:
+        return probs, info
+    if out != app.alg.max_eig:
+        probs.append(("app-output", "MaxEig.run() does not return alg.max_eig", {}))
+    if count[0] != K or app.alg.iter != K:
+        probs.append(("maxeig-count", "%d updates, iter %d, max_iter %d" % (count[0], app.alg.iter, K), {}))
+    if out > lam * (1 + 1e-9):
+        probs.append(("power-exceeds", "MaxEig returned %.17g > lambda_max %.17g (operand shape %s)" % (out, lam, shape), {}))
+    if abs(nv - 1.0) > 1e-12:
+        probs.append(("power-unit", "MaxEig's vector has l2 norm %.17g (operand shape %s)" % (nv, shape), {}))
+    return probs, info
 
 
 ACCEL_SIG = "C15:GradientMethod:accelerate:early-stop-not-fixed"
@@ -477,11 +554,16 @@ def run(ctx):
             report("MaxEig", cfg, probs, {"history": c})
             runs.append((cfg, c))
             ctx.count("MaxEig:App.run", key=(max_iter, variant, npseed), nontrivial=max_iter > 0)
-    for i in range(ctx.n(60, 1500)):
+    for i in range(ctx.n(120, 2500)):
         npseed = rng.randrange(2 ** 31)
         probs, info = power_oracle(sp, random.Random(npseed), np.random.default_rng(npseed), i % 2 == 1)
         report("PowerMethod", dict(kind="power-oracle", npseed=npseed, cplx=i % 2 == 1), probs, info)
-        ctx.count("PowerMethod:oracle", key=npseed, sample=info if i < 2 else None)
+        ctx.count("PowerMethod:oracle:%dD" % len(info["shape"]), key=npseed, sample=info if i < 2 else None)
+    for i in range(ctx.n(40, 800)):
+        npseed = rng.randrange(2 ** 31)
+        probs, info = maxeig_oracle(sp, random.Random(npseed), np.random.default_rng(npseed), i % 2 == 1)
+        report("MaxEig", dict(kind="maxeig-oracle", npseed=npseed, cplx=i % 2 == 1), probs, info)
+        ctx.count("MaxEig:oracle:%dD" % len(info["shape"]), key=npseed)
     # accelerated GradientMethod: an early stop (tol = 0) must be at a point that a further update leaves unchanged
     # (C15_gm_accel_early_stop_fixed).  corpus instance(s) first, then a small-budget search
     found = []
@@ -537,8 +619,9 @@ def run(ctx):
     ctx.coverage["rule"] = (
         "every constructible Alg subclass (%s) x max_iter 0..6 x variants (real/complex, Linop/function, exact-fixed-point "
         "instances, PDHG with zero init + l1 prox + steps 0.01, all-zero data, gamma_dual>0): one random interleaving of "
-        "done()/update() with max_iter+2 updates and one canonical loop / App.run each; MaxEig; power-iteration oracle on "
-        "random Hermitian PSD (incl. rank-deficient) matrices; non-trivial = max_iter > 0; distinct = (max_iter, variant, seed)"
+        "done()/update() with max_iter+2 updates and one canonical loop / App.run each; MaxEig; power-iteration and MaxEig oracles on "
+        "Hermitian PSD Linops (B.H*B with MatMul / Multiply, Multiply by a non-negative array, W.H*B.H*B*W; rank-deficient "
+        "included) acting on operands of shape (n,), (n,1), (m,n) with m,n>1 and 3-D, lambda_max from the dense matrix; non-trivial = max_iter > 0; distinct = (max_iter, variant, seed)"
         % ", ".join(KINDS))
     ctx.trusted += TRUSTED
     ctx.proved += PROVED
@@ -550,7 +633,11 @@ def replay(obj):
     cfg = obj["config"]
     probs = []
     if cfg.get("kind") == "power-oracle":
-        probs, _ = power_oracle(sp, random.Random(cfg["npseed"]), np.random.default_rng(cfg["npseed"]), cfg["cplx"])
+        probs, info = power_oracle(sp, random.Random(cfg["npseed"]), np.random.default_rng(cfg["npseed"]), cfg["cplx"])
+        print(info)
+    elif cfg.get("kind") == "maxeig-oracle":
+        probs, info = maxeig_oracle(sp, random.Random(cfg["npseed"]), np.random.default_rng(cfg["npseed"]), cfg["cplx"])
+        print(info)
     elif cfg.get("kind") == "accel-case":
         r = accel_case(sp, obj["input"])
         print("input", obj["input"], "\nobserved", r)
